@@ -565,6 +565,11 @@ class Record(tuple):
         self.flds = flds
         self.missing = missing
 
+    def __reduce__(self):
+        # support pickling, N.B., records end up in temporary files when
+        # sorting a table that does not fit within the sort buffer
+        return Record, (tuple(self), self.flds, self.missing)
+
     def __getitem__(self, f):
         if isinstance(f, int):
             idx = f
